@@ -162,6 +162,17 @@ impl ConnectionLimits {
     }
 }
 
+#[cfg(feature = "verif")]
+impl ConnectionLimits {
+    /// Verification hook: the counted (incoming, outgoing) connection ids.
+    pub fn verif_sets(&self) -> (Vec<usize>, Vec<usize>) {
+        (
+            self.incoming_connections.iter().map(|c| c.verif_as_usize()).collect(),
+            self.outgoing_connections.iter().map(|c| c.verif_as_usize()).collect(),
+        )
+    }
+}
+
 #[cfg(test)]
 mod tests {
     use super::*;
